@@ -46,6 +46,12 @@ pub fn lua_stub_main() -> i32 {
             let _ = std::fs::rename(&tmp, &p);
         }
     }
+    if !buf.is_empty() && std::env::var("SYLT_SIM_LUA_BINARY_STDOUT").map(|v| v == "1").unwrap_or(false) {
+        // a program that prints bytes which are not UTF-8 (a Latin-1 string, binary data); an empty program (what the
+        // peer is given when the compilation failed) prints nothing
+        let _ = std::io::stdout().write_all(&[0x48, 0x65, 0x6a, 0x20, 0xe5, 0xe4, 0xf6, 0xff, 0xfe, 0x0a]);
+        let _ = std::io::stdout().flush();
+    }
     if let Ok(t) = std::env::var("SYLT_SIM_LUA_STDERR") {
         if !t.is_empty() {
             let _ = std::io::stderr().write_all(t.as_bytes());
@@ -175,13 +181,13 @@ pub fn all_cells(req_a: &str, req_b: &str) -> Vec<Cell> {
     let mut out = Vec::new();
     let flags: Vec<(Option<String>, bool)> = vec![(None, false), (Some(req_a.into()), false), (None, true), (Some(req_b.into()), true)];
     for (req, ns) in &flags {
-        for peer in ["P1-ok", "P1s-slow-reader", "P2-stderr-exit1", "P2b-long-stderr-exit1", "P3-stderr-exit0", "P4-silent-exit1", "P5-fails-without-reading", "P0-lua-absent"] {
-            if (peer == "P1s-slow-reader" || peer == "P0-lua-absent" || peer == "P5-fails-without-reading") && (req.is_some() || *ns) {
+        for peer in ["P1-ok", "P1b-binary-stdout", "P1s-slow-reader", "P2-stderr-exit1", "P2b-long-stderr-exit1", "P3-stderr-exit0", "P4-silent-exit1", "P5-fails-without-reading", "P0-lua-absent"] {
+            if (peer == "P1s-slow-reader" || peer == "P1b-binary-stdout" || peer == "P0-lua-absent" || peer == "P5-fails-without-reading") && (req.is_some() || *ns) {
                 continue;
             }
             out.push(Cell { mode: "run".into(), require: req.clone(), no_std: *ns, target: String::new(), peer: peer.into(), input: "present".into(), spelling: "absolute".into(), fault: None, flags_last: false });
         }
-        for target in ["O1-absent", "O2-existing", "O2b-existing-longer", "O3-parent-missing", "O4-is-directory", "O5-component-is-file", "O6-dev-full", "O9-dev-null"] {
+        for target in ["O1-absent", "O2-existing", "O2c-existing-empty", "O2b-existing-longer", "O3-parent-missing", "O4-is-directory", "O5-component-is-file", "O6-dev-full", "O9-dev-null"] {
             if target == "O9-dev-null" && (req.is_some() || *ns) {
                 continue;
             }
@@ -429,6 +435,12 @@ impl Runner {
                             let _ = std::fs::write(&p, b"SENTINEL: previous contents of the output file\n");
                             p
                         }
+                        "O2c-existing-empty" => {
+                            // what `touch`, `mktemp` or an interrupted earlier build leave behind
+                            let p = format!("{}/prog.lua", outdir);
+                            let _ = std::fs::write(&p, b"");
+                            p
+                        }
                         "O2b-existing-longer" => {
                             // an older, much longer output of some other program
                             let p = format!("{}/prog.lua", outdir);
@@ -499,12 +511,16 @@ impl Runner {
             };
             cmd.arg("strace").arg("-f").arg("-o").arg("/dev/null").arg("-e").arg(format!("trace={}", f.syscall)).arg("-e").arg(format!("inject={}:error={}:when={}", f.syscall, f.error, f.when)).arg("-P").arg(path);
         }
+        if let Some((_, cpus)) = extra_env.iter().find(|(k, _)| k == "SYLT_SIM_CPUS") {
+            cmd.arg("taskset").arg("-c").arg(cpus);
+        }
         cmd.arg("prlimit").arg("--as=4294967296").arg(&self.bin).args(&args);
         cmd.current_dir(&cwd)
             .env_clear()
             .env("PATH", if cell.peer == "P0-lua-absent" { "/nonexistent-directory" } else { self.path_env.as_str() })
             .env("SYLT_SIM_LUA_DELAY_MS", if cell.peer == "P1s-slow-reader" { "120" } else { "0" })
             .env("SYLT_SIM_LUA_MODE", if cell.peer == "P5-fails-without-reading" { "nodrain" } else { "drain" })
+            .env("SYLT_SIM_LUA_BINARY_STDOUT", if cell.peer == "P1b-binary-stdout" { "1" } else { "0" })
             .env("HOME", root)
             .env("SYLT_SIM_LUA_CAPTURE", &capture)
             .env("SYLT_SIM_LUA_STDERR", stderr_text)
@@ -519,6 +535,10 @@ impl Runner {
                     let real = format!("{}{}", root, p.strip_prefix(SIM_ROOT).unwrap_or(p));
                     let _ = Command::new("touch").arg("-d").arg(format!("@{}", v)).arg(&real).stdout(Stdio::null()).stderr(Stdio::null()).status();
                 }
+                continue;
+            }
+            if k == "SYLT_SIM_CPUS" {
+                // the number of CPUs the process may use is part of its environment (handled below: taskset)
                 continue;
             }
             if k == "SYLT_SIM_CLOCK_OFFSET" {
@@ -664,7 +684,7 @@ pub fn judge(cell: &Cell, exp: &Expected, obs: &ProcObs, root: &str, preamble: &
         // transient faults (EINTR) must be invisible; a source that cannot be read is judged like a missing one
         // (the caller computed the expectation accordingly)
     }
-    let target_ok = cell.mode != "file" || matches!(cell.target.as_str(), "O1-absent" | "O2-existing" | "O2b-existing-longer" | "O8-left-over-from-previous-compile");
+    let target_ok = cell.mode != "file" || matches!(cell.target.as_str(), "O1-absent" | "O2-existing" | "O2c-existing-empty" | "O2b-existing-longer" | "O8-left-over-from-previous-compile");
     if cell.mode == "run" && cell.peer == "P0-lua-absent" {
         // no interpreter to run the program with: whatever the program is, this is not a success
         if exit == 0 {
@@ -672,7 +692,7 @@ pub fn judge(cell: &Cell, exp: &Expected, obs: &ProcObs, root: &str, preamble: &
         }
         return CellVerdict { violations: vs, observations: notes };
     }
-    let peer_ok = cell.mode != "run" || cell.peer == "P1-ok" || cell.peer == "P1s-slow-reader";
+    let peer_ok = cell.mode != "run" || cell.peer == "P1-ok" || cell.peer == "P1s-slow-reader" || cell.peer == "P1b-binary-stdout";
     let should_succeed = exp.accepted && target_ok && peer_ok;
 
     // B1 exit status
@@ -1236,6 +1256,8 @@ pub fn replay(doc: &J, id: &str) -> i32 {
 
 const ENVS: &[&[(&str, &str)]] = &[
     &[],
+    &[("TMPDIR", "/nonexistent-tmpdir-zz"), ("SYLT_SIM_CPUS", "0")],
+    &[("TMPDIR", "/dev/shm"), ("SYLT_SIM_CPUS", "0,1")],
     &[("SYLT_SIM_CLOCK_OFFSET", "86400"), ("SYLT_SIM_SOURCE_MTIME", "978307200")],
     &[("SYLT_SIM_CLOCK_OFFSET", "1000000000"), ("TZ", "Asia/Kathmandu")],
     &[("SYLT_SIM_CLOCK_OFFSET", "-1500000000"), ("SYLT_SIM_SOURCE_MTIME", "2147483000")],
@@ -1389,7 +1411,7 @@ fn replay_c16(doc: &J, prog: &Program, runner: &Runner, id: &str) -> i32 {
 
 pub fn run_c16_processes(tier: &str, batch_seed: u64) -> LayerBResult {
     let n_programs: u64 = std::env::var("SYLT_SIM_C16_PROGRAMS").ok().and_then(|v| v.parse().ok()).unwrap_or(if tier == "quick" { 160 } else { 2_000 });
-    let reps: usize = std::env::var("SYLT_SIM_C16_REPS").ok().and_then(|v| v.parse().ok()).unwrap_or(if tier == "quick" { 10 } else { 40 });
+    let reps: usize = std::env::var("SYLT_SIM_C16_REPS").ok().and_then(|v| v.parse().ok()).unwrap_or(if tier == "quick" { 12 } else { 48 });
     if !Path::new(&sylt_bin()).exists() {
         let mut cov = J::obj();
         cov.put("harness.layer_b_binary_missing", J::u(1));
